@@ -251,6 +251,9 @@ func edits() []edit {
 		s.Types = keep
 	})
 	add("change-field-named-type", func(s *schema) { s.typ("A").Fields[1].Type = named("SCALAR", "Int") })
+	// a field that keeps its name and the kind of its type but returns another object / union type (both types exist on both sides)
+	add("change-field-object-type", func(s *schema) { s.typ("A").Fields[2].Type = named("OBJECT", "A") })
+	add("change-root-field-object-type", func(s *schema) { s.typ("Query").Fields[0].Type = nn(named("OBJECT", "B")) })
 	add("change-arg-named-type", func(s *schema) { s.typ("Query").Fields[3].Args[0].Type = nn(named("SCALAR", "String")) })
 	add("field-list-vs-scalar", func(s *schema) { s.typ("A").Fields[1].Type = list(named("SCALAR", "String")) })
 	// toggle NON_NULL at every nesting position of output and input types
@@ -592,7 +595,7 @@ func run(rp *explore.Report, tier string) {
 					class := kind + "/other-error"
 					if strings.Contains(e.Error(), "is non-null") {
 						class = kind + "/required-input-unknown-to-another-side"
-					} else if strings.Contains(e.Error(), "kinds ") && strings.Contains(e.Error(), " differ") {
+					} else if strings.Contains(e.Error(), "kinds ") && strings.Contains(e.Error(), " differ") || strings.Contains(e.Error(), "types must be identical") {
 						class = kind + "/conflicting-kinds-hidden-by-a-side-without-the-type"
 					}
 					fail("order-independent", class, item, fmt.Sprintf("merging fails in one order/naming (%v) and succeeds in another (%v)", firstErr, err))
@@ -661,5 +664,5 @@ func run(rp *explore.Report, tier string) {
 
 func init() {
 	reg.Register(&reg.Harness{Property: "C09", Name: "c09/merge", Level: "exploration", Run: run,
-		Rule: "a base introspection schema (objects, input object, enum, union, list/non-null nestings, arguments) and every schema reachable by one edit (thorough: two edits) out of 37 (add/remove type, field, nullable or required argument, input field, enum value, union member; toggle NON_NULL at each nesting level of outputs, arguments and input fields; change a named type); all unordered pairs as two versions of one service and as two services, and triples as three versions / three services, each under every permutation of the inputs and two namings. Oracle on MergeIntrospectionSchemas: the merged schema contains only what every version has / everything some service has, argument required iff any side requires it, output non-null iff every side guarantees it (per nesting level), referenced types present, identical result for every order and naming, either all orders fail or none, the inputs are left unmodified and a second merge of the same objects gives the same schema"})
+		Rule: "a base introspection schema (objects, input object, enum, union, list/non-null nestings, arguments) and every schema reachable by one edit (thorough: two edits) out of 39 (add/remove type, field, nullable or required argument, input field, enum value, union member; toggle NON_NULL at each nesting level of outputs, arguments and input fields; change a named type); all unordered pairs as two versions of one service and as two services, and triples as three versions / three services, each under every permutation of the inputs and two namings. Oracle on MergeIntrospectionSchemas: the merged schema contains only what every version has / everything some service has, argument required iff any side requires it, output non-null iff every side guarantees it (per nesting level), referenced types present, identical result for every order and naming, either all orders fail or none, the inputs are left unmodified and a second merge of the same objects gives the same schema"})
 }
